@@ -71,9 +71,7 @@ pub async fn compact_folder(
                 records.push(EventRecord::encode_event(event).await?);
             }
 
-            let checkpoint = temp_event_log
-                .tree()
-                .proof(&[temp_event_log.tree().len() - 1])?;
+            let checkpoint = temp_event_log.tree().head()?;
 
             let diff = FolderDiff::new(Patch::new(records), checkpoint, None);
             event_log.replace_all_events(&diff).await?;
@@ -105,9 +103,7 @@ pub async fn compact_folder(
 
             let diff = FolderDiff::new(
                 Patch::new(records),
-                temp_event_log
-                    .tree()
-                    .proof(&[temp_event_log.tree().len() - 1])?,
+                temp_event_log.tree().head()?,
                 None,
             );
 
